@@ -269,11 +269,45 @@ class SimAdapter(BaseAdapter):
         resp.encoding = "utf-8"
         if request.method == "HEAD":
             body = b""
+        r = net.fault_rng
+        if (r is not None and getattr(net, "stall_rate", 0.0) > 0 and len(body) > 1 and status in (200, 206)
+                and r.random() < net.stall_rate):
+            # the header arrives, the body stalls after k bytes for longer than the read timeout: whoever reads the body
+            # (requests itself for stream=False, the caller for stream=True) gets the first k bytes and then the error
+            k = r.randrange(1, len(body))
+            net.n_faults += 1
+            net.ctx.fault("stalled_mid_body")
+            if net.clock:
+                net.clock.advance(_tmo(timeout))
+            resp._content = False
+            resp._content_consumed = False
+            resp.raw = _StallingRaw(body[:k])
+            net._yield(f"recv-partial {u.hostname}{u.path}")
+            return resp
         resp._content = body
         resp._content_consumed = True
         resp.raw = io.BytesIO(body)
         net._yield(f"recv {u.hostname}{u.path}")
         return resp
+
+    def close(self):
+        pass
+
+
+class _StallingRaw:
+    """Body stream that delivers its bytes and then fails like a connection whose peer stopped sending
+    (requests turns urllib3's ReadTimeoutError while reading a body into requests.exceptions.ConnectionError)."""
+    def __init__(self, data):
+        self._b = io.BytesIO(data)
+
+    def read(self, n=-1, **kw):
+        chunk = self._b.read(n)
+        if chunk:
+            return chunk
+        raise requests.exceptions.ConnectionError("sim: read timed out while reading the body")
+
+    def release_conn(self):
+        pass
 
     def close(self):
         pass
